@@ -2,6 +2,7 @@ import GoImap.Drive.C15
 import GoImap.Drive.C20
 import GoImap.Drive.C16
 import GoImap.Drive.C19
+import GoImap.Drive.C07
 open GoImap
 
 /-- one case per input line, tab-separated; the first field names the property -/
@@ -11,6 +12,7 @@ def dispatch (line : String) : String :=
   | "C20" :: rest => DriveC20.handle rest
   | "C16" :: rest => DriveC16.handle rest
   | "C19" :: rest => DriveC19.handle rest
+  | "C07" :: rest => DriveC07.handle rest
   | _ => "?\t0\tfail:unknown-property\t-"
 
 partial def loop (hin hout : IO.FS.Stream) : IO Unit := do
